@@ -304,14 +304,15 @@ func ReqType(method string) proto.Message {
 // ---- base requests ----
 
 type request struct {
-	method string                       // full gRPC method
-	rebase func(w *World) proto.Message // rebuilds the base message at send time (requests that depend on the chain head)
-	stream bool
-	target string // beacon id the base message addresses
-	state  string
-	name   string
-	msg    proto.Message
-	resign func(m proto.Message) bool // re-signs a mutated message with the key of its claimed sender (nil: not signed)
+	method   string                       // full gRPC method
+	rebase   func(w *World) proto.Message // rebuilds the base message at send time (requests that depend on the chain head)
+	stream   bool
+	target   string // beacon id the base message addresses
+	state    string
+	name     string
+	msg      proto.Message
+	resign   func(m proto.Message) bool // re-signs a mutated message with the key of its claimed sender (nil: not signed)
+	baseOnly bool                       // sent as it is, no single-field variants
 }
 
 func allChainIDs() []string {
@@ -451,6 +452,20 @@ func (w *World) gossipBases(id string) []request {
 		prop.Leader = w.g1.part
 	}
 	mk("proposal", &pdkg.GossipPacket{Packet: &pdkg.GossipPacket_Proposal{Proposal: prop}}, leaderKP, leader)
+	if id == "fresh1" {
+		// first-epoch proposals are self-certifying: anybody can make participants (validly self-signed) with any address
+		for i, addr := range []string{"h%zz.example.org:4444", "[::1]:99999", "localhost:", ":0", "256.1.1.1:1"} {
+			kp := fix.DetKeyPair(fmt.Sprintf("c14/oddpart/%d", i), addr, w.sch)
+			odd, err := util.PublicKeyAsParticipant(kp.Public)
+			if err != nil {
+				continue
+			}
+			p2 := proto.Clone(prop).(*pdkg.ProposalTerms)
+			p2.Joining = []*pdkg.Participant{p2.Joining[0], p2.Joining[1], odd}
+			mk(fmt.Sprintf("proposal-odd-participant-%d", i), &pdkg.GossipPacket{Packet: &pdkg.GossipPacket_Proposal{Proposal: p2}}, leaderKP, leader)
+			out[len(out)-1].baseOnly = true
+		}
+	}
 	mk("accept", &pdkg.GossipPacket{Packet: &pdkg.GossipPacket_Accept{Accept: &pdkg.AcceptProposal{Acceptor: w.g2.part}}}, w.g2.kp, w.g2.part)
 	mk("reject", &pdkg.GossipPacket{Packet: &pdkg.GossipPacket_Reject{Reject: &pdkg.RejectProposal{Rejector: w.g2.part, Reason: "c14", Secret: []byte("s"), PreviousGroupHash: make([]byte, 32), ProposalHash: make([]byte, 32)}}}, w.g2.kp, w.g2.part)
 	mk("execute", &pdkg.GossipPacket{Packet: &pdkg.GossipPacket_Execute{Execute: &pdkg.StartExecution{Time: timestamppb.New(time.Now().Add(time.Hour))}}}, leaderKP, leader)
